@@ -91,7 +91,7 @@ UNIT = Unit(
            requires=[("wf", "style_wf(self)")], ensures=[("C14-wf", "style_wf(r)")]),
         Fn("src/style.rs", "ProgressStyle", "progress_chars", ret="r",
            rewrites=[ASSERT_TICKS],
-           requires=[("wf", "style_wf(self)")], ensures=[("C14-wf", "style_wf(r)")]),
+           requires=[("wf", "style_wf(self)")], ensures=[("C14-wf", "style_wf(r)", ["C14", "C13"])]),
         Fn("src/style.rs", "ProgressStyle", "template", ret="r",
            requires=[("wf", "style_wf(self)")], ensures=[("C14-wf", "r matches Ok(st) ==> style_wf(st)")]),
         Fn("src/style.rs", "ProgressStyle", "with_template", ret="r",
